@@ -121,10 +121,12 @@ class EnsembleSampler(MarkovChain):
                 """
             )
 
-        # work on a copy so that the walkers never alias (and later overwrite) the caller's array
+        # work on a float copy, so that the walkers never alias (and later overwrite) the
+        # caller's array, and accepted proposals are stored as they were evaluated rather
+        # than truncated to an integer (or rounded to a narrower float) dtype of the input
         theta = (
             positions.reshape([positions.size, 1]) if positions.ndim == 1 else positions
-        ).copy()
+        ).astype(float)
 
         if theta.ndim != 2 or theta.shape[0] < (theta.shape[1] + 1):
             raise ValueError(
